@@ -694,6 +694,21 @@ func (s *Session) writeChunk(b []byte) (n int, err error) {
 			break
 		}
 
+		// The data is already queued. Waiting here only paces the writer,
+		// so it must not outlast the session or the write deadline.
+		select {
+		case <-s.closedChan:
+			shouldReturn = true
+		case <-s.outputErr:
+			shouldReturn = true
+		case <-timeC:
+			shouldReturn = true
+		default:
+		}
+		if shouldReturn {
+			break
+		}
+
 		seqAfterWrite, err := s.sendQueue.MinSeq()
 		if err != nil || seqAfterWrite > seqBeforeWrite {
 			break
